@@ -234,3 +234,14 @@ pub fn watchdog(args: &kvcore::Args, secs: u64) {
         std::process::exit(2);
     });
 }
+
+/// Record a violation, but keep at most 3 witnesses per signature and worker (all are counted):
+/// a flood of one (possibly known) signature must not push a different signature out of the
+/// bounded witness lists.
+pub fn violation(acc: &mut kvcore::Acc, signature: &str, detail: serde_json::Value) {
+    let key = format!("violations.{signature}");
+    acc.count(&key);
+    if acc.get(&key) <= 3 {
+        acc.violation(signature, detail);
+    }
+}
